@@ -22,9 +22,11 @@ func (eng *Engine) prelude() string {
 	b.WriteString(eng.sc.decls())
 	b.WriteString("(declare-fun gs.empty () Str)\n(assert (= (gs.len gs.empty) 0))\n")
 	b.WriteString("(assert (forall ((s Str)) (>= (gs.len s) 0)))\n")
-	// strings are determined by their content (extensionality)
+	// strings are determined by their content (extensionality) — only when a contract asks for it
+	if eng.needStrExt {
 	b.WriteString("(declare-fun gs.diff (Str Str) Int)\n")
 	b.WriteString("(assert (forall ((a Str) (b Str)) (=> (and (= (gs.len a) (gs.len b)) (not (= a b))) (and (<= 0 (gs.diff a b)) (< (gs.diff a b) (gs.len a)) (not (= (gs.at a (gs.diff a b)) (gs.at b (gs.diff a b))))))))\n")
+	}
 	for _, s := range eng.strOrder {
 		n := eng.strs[s]
 		if s == "" {
@@ -120,6 +122,18 @@ func (eng *Engine) prelude() string {
 	for _, f := range fr {
 		fmt.Fprintf(&b, "(declare-fun %s () Int)\n(assert (> %s 0))\n", f, f)
 	}
+	b.WriteString("%%OPTIONAL%%\n")
+	return b.String()
+}
+
+// optionalDecls returns the declarations/axioms of ghost functions and opaque predicates that the
+// query text actually mentions (transitively), so unrelated quantified axioms do not burden the solver.
+func (eng *Engine) optionalDecls(body string) string {
+	type item struct {
+		sym  string
+		text string
+	}
+	var items []item
 	var uf []string
 	for n := range eng.ufuns {
 		uf = append(uf, n)
@@ -127,10 +141,36 @@ func (eng *Engine) prelude() string {
 	sort.Strings(uf)
 	for _, n := range uf {
 		u := eng.ufuns[n]
-		fmt.Fprintf(&b, "(declare-fun %s (%s) %s)\n", u.Name, strings.Join(u.Args, " "), u.Ret)
+		t := fmt.Sprintf("(declare-fun %s (%s) %s)\n", u.Name, strings.Join(u.Args, " "), u.Ret)
+		for _, a := range eng.axioms {
+			if strings.Contains(a, u.Name+" ") {
+				t += "(assert " + a + ")\n"
+			}
+		}
+		items = append(items, item{u.Name, t})
 	}
-	for _, a := range eng.axioms {
-		b.WriteString("(assert " + a + ")\n")
+	for i := 0; i+1 < len(eng.predDecls); i += 2 {
+		d := eng.predDecls[i]
+		name := strings.Fields(d)[1]
+		items = append(items, item{name, d + "\n" + eng.predDecls[i+1] + "\n"})
+	}
+	used := make([]bool, len(items))
+	text := body
+	for changed := true; changed; {
+		changed = false
+		for i, it := range items {
+			if !used[i] && strings.Contains(text, "("+it.sym+" ") {
+				used[i] = true
+				text += it.text
+				changed = true
+			}
+		}
+	}
+	var b strings.Builder
+	for i, it := range items {
+		if used[i] {
+			b.WriteString(it.text)
+		}
 	}
 	return b.String()
 }
@@ -140,12 +180,17 @@ func (o *Obligation) query(prelude string) string {
 	fv := o.fv
 	var b strings.Builder
 	b.WriteString("(set-option :produce-models true)\n(set-logic ALL)\n")
+	var body strings.Builder
+	defer func() {}()
 	b.WriteString(prelude)
 	// heap initial consts may be declared after use in decl order: decls are in creation order, fine
 	for _, d := range fv.decls[:o.NDecl] {
 		b.WriteString(d + "\n")
 	}
-	for _, a := range fv.assumes[:o.NAssume] {
+	for i, a := range fv.assumes[:o.NAssume] {
+		if i < len(fv.atags) && o.Anc != nil && !o.Anc[fv.atags[i]] {
+			continue // assumption made in a branch that does not flow into this obligation
+		}
 		b.WriteString("(assert " + a + ")\n")
 	}
 	b.WriteString("(assert " + o.PC + ")\n")
@@ -155,6 +200,124 @@ func (o *Obligation) query(prelude string) string {
 		b.WriteString("(assert (not " + o.Goal + "))\n")
 	}
 	b.WriteString("(check-sat)\n(get-model)\n")
+	_ = body
+	full := b.String()
+	// reveal: unfold the definitions of the opaque predicates named in the goal, for each of their
+	// applications in the query; every other predicate stays folded (uninterpreted).
+	reveal := o.fv.eng.revealDefs(o.Goal, full, o.fv.contract.Reveal)
+	full = strings.Replace(full, "(check-sat)\n(get-model)\n", reveal+"(check-sat)\n(get-model)\n", 1)
+	return strings.Replace(full, "%%OPTIONAL%%\n", o.fv.eng.optionalDecls(full), 1)
+}
+
+// predApps finds all applications "(pred.NAME a1 ... an)" in text.
+func predApps(text, name string) [][]string {
+	var out [][]string
+	needle := "(" + name + " "
+	seen := map[string]bool{}
+	for i := 0; ; {
+		j := strings.Index(text[i:], needle)
+		if j < 0 {
+			break
+		}
+		start := i + j
+		depth := 0
+		end := -1
+		for k := start; k < len(text); k++ {
+			if text[k] == '(' {
+				depth++
+			} else if text[k] == ')' {
+				depth--
+				if depth == 0 {
+					end = k
+					break
+				}
+			}
+		}
+		if end < 0 {
+			break
+		}
+		app := text[start : end+1]
+		if !seen[app] {
+			seen[app] = true
+			out = append(out, splitTop(app[len(needle):len(app)-1]))
+		}
+		i = start + len(needle)
+	}
+	return out
+}
+
+var identChar = func(c byte) bool {
+	return c == '_' || c == '.' || c == '!' || (c >= '0' && c <= '9') || (c >= 'a' && c <= 'z') || (c >= 'A' && c <= 'Z')
+}
+
+// substFormals replaces whole-token occurrences of formals by actuals.
+func substFormals(body string, formals, actuals []string) string {
+	m := map[string]string{}
+	for i, f := range formals {
+		if i < len(actuals) {
+			m[f] = actuals[i]
+		}
+	}
+	var b strings.Builder
+	for i := 0; i < len(body); {
+		if identChar(body[i]) {
+			j := i
+			for j < len(body) && identChar(body[j]) {
+				j++
+			}
+			tok := body[i:j]
+			if r, ok := m[tok]; ok {
+				b.WriteString(r)
+			} else {
+				b.WriteString(tok)
+			}
+			i = j
+			continue
+		}
+		b.WriteByte(body[i])
+		i++
+	}
+	return b.String()
+}
+
+func (eng *Engine) revealDefs(goal, full string, always []string) string {
+	var names []string
+	for n, pd := range eng.preds {
+		inAlways := false
+		for _, a := range always {
+			if a == n {
+				inAlways = true
+			}
+		}
+		if inAlways || strings.Contains(goal, "("+pd.name+" ") {
+			names = append(names, n)
+		}
+	}
+	sort.Strings(names)
+	var b strings.Builder
+	done := map[string]bool{}
+	for round := 0; round < 3; round++ {
+		added := false
+		text := full + b.String()
+		for _, n := range names {
+			pd := eng.preds[n]
+			for _, args := range predApps(text, pd.name) {
+				if len(args) != len(pd.formals) {
+					continue
+				}
+				key := pd.name + " " + strings.Join(args, " ")
+				if done[key] {
+					continue
+				}
+				done[key] = true
+				added = true
+				fmt.Fprintf(&b, "(assert (= (%s %s) %s))\n", pd.name, strings.Join(args, " "), substFormals(pd.body, pd.formals, args))
+			}
+		}
+		if !added {
+			break
+		}
+	}
 	return b.String()
 }
 
